@@ -10,7 +10,7 @@
 (* matrix (digraph6, '&' prefix), padded on the right with zeros to a multiple *)
 (* of six and packed big-endian into bytes 63..126.                            *)
 (*                                                                             *)
-(* Roles: R1 (Mode = "model"/any): the round-trip theorems below are checked  *)
+(* Roles: R1 (every run): the round-trip theorems below are checked  *)
 (* as invariants on every enumerated graph / string.  R2 (Emit = TRUE): every  *)
 (* enumerated case is printed with the expected encoding / classification /    *)
 (* decoded graph; the Go harness replays it into graph6.Encode, IsValid and    *)
@@ -18,7 +18,7 @@
 EXTENDS Integers, Sequences, FiniteSets, TLC, Json
 
 CONSTANTS Directed,  \* BOOLEAN: digraph6 (TRUE) or graph6 (FALSE)
-          Mode,      \* "graphs" | "strings" | "mutants" | "big" | "bigmut" | "hdr"
+          Modes,     \* subset of {"graphs", "big"} or of {"strings", "mutants", "bigmut", "hdr"}: case spaces to enumerate
           MaxN,      \* graphs / mutants: all graphs of order 0..MaxN
           MaxLen,    \* strings: all byte strings of length 0..MaxLen over Alphabet
           Alphabet,  \* set of byte values
@@ -115,7 +115,7 @@ Strings(k) == IF k <= 0 THEN {<<>>}
               ELSE LET S == Strings(k - 1) IN
                    S \cup {Append(s, b) : s \in {x \in S : Len(x) = k - 1}, b \in Alphabet}
 \* (TLC evaluates constant definitions eagerly: each space is empty unless its mode is selected)
-StringSpace == IF Mode # "strings" THEN {}
+StringSpace == IF "strings" \notin Modes THEN {}
                ELSE IF Directed
                THEN Strings(MaxLen - 1) \cup {<<38>> \o s : s \in Strings(MaxLen)}
                ELSE Strings(MaxLen)
@@ -123,33 +123,30 @@ StringSpace == IF Mode # "strings" THEN {}
 Mut(s, pos) == {SubSeq(s, 1, k) : k \in (0 .. Len(s)) \cap (pos \cup {Len(s) - 1})}
                \cup {[s EXCEPT ![i] = b] : i \in (1 .. Len(s)) \cap (pos \cup {Len(s)}), b \in Alphabet}
                \cup {Append(s, b) : b \in Alphabet}
-SmallGraphs == IF Mode \notin {"graphs", "mutants"} THEN {} ELSE UNION {Graphs(n) : n \in 0 .. MaxN}
-MutantSpace == IF Mode # "mutants" THEN {} ELSE UNION {Mut(Enc(g), 0 .. 64) : g \in SmallGraphs}
+SmallGraphs == IF Modes \cap {"graphs", "mutants"} = {} THEN {} ELSE UNION {Graphs(n) : n \in 0 .. MaxN}
+MutantSpace == IF "mutants" \notin Modes THEN {} ELSE UNION {Mut(Enc(g), 0 .. 64) : g \in SmallGraphs}
 
 \* seed-dependent family around the header-width change at n = 63
 BigE(n, d) == {p \in AllPairs(n) : ((p[1] * 7 + p[2] * 13 + p[1] * p[2] + Seed * 31 + d * 17) % 11) < d}
-BigGraphs == IF Mode # "big" THEN {} ELSE {[n |-> n, e |-> BigE(n, d)] : n \in BigNs, d \in {0, 1, 5, 11}}
-BigMutSpace == IF Mode # "bigmut" THEN {} ELSE UNION {Mut(Enc([n |-> n, e |-> BigE(n, 5)]), 0 .. 10) : n \in BigNs}
+BigGraphs == IF "big" \notin Modes THEN {} ELSE {[n |-> n, e |-> BigE(n, d)] : n \in BigNs, d \in {0, 1, 5, 11}}
+BigMutSpace == IF "bigmut" \notin Modes THEN {} ELSE UNION {Mut(Enc([n |-> n, e |-> BigE(n, 5)]), 0 .. 10) : n \in BigNs}
 
 \* header grid: every width of size field (minimal or not) x data length need-1, need, need+1
 \* x fill byte, for the given orders
 Fill(k, b) == [i \in 1 .. k |-> b]
-HdrSpace == IF Mode # "hdr" THEN {} ELSE {Prefix \o h \o Fill(k, b) :
+HdrSpace == IF "hdr" \notin Modes THEN {} ELSE {Prefix \o h \o Fill(k, b) :
                h \in UNION {{Header(n), Header4(n), Header8(n)} : n \in BigNs},
                k \in UNION {{(NeedBits(n) + 5) \div 6 - 1, (NeedBits(n) + 5) \div 6, (NeedBits(n) + 5) \div 6 + 1} \cap Nat
                               : n \in BigNs},
                b \in {63, 64, 95, 126}}
 
-Init == val \in CASE Mode = "graphs"  -> SmallGraphs
-               [] Mode = "big"     -> BigGraphs
-               [] Mode = "strings" -> StringSpace
-               [] Mode = "mutants" -> MutantSpace
-               [] Mode = "bigmut"  -> BigMutSpace
-               [] Mode = "hdr"     -> HdrSpace
+GraphMode == Modes \subseteq {"graphs", "big"}
+Init == val \in IF GraphMode
+               THEN (IF "graphs" \in Modes THEN SmallGraphs ELSE {}) \cup BigGraphs
+               ELSE StringSpace \cup MutantSpace \cup BigMutSpace \cup HdrSpace
 Next == UNCHANGED val
 Spec == Init /\ [][Next]_vars
 
-GraphMode == Mode \in {"graphs", "big"}
 
 (***************************** theorems (R1) ********************************)
 \* encode then decode is the identity, and a writer's output is strictly valid
